@@ -361,7 +361,9 @@ def trackChild (c : Child) : HM Unit := fun s =>
   let ik := inKey s.me c
   let v := (popVerdict s.tape).1
   let tape := (popVerdict s.tape).2
-  if s.sad.contains ok ∨ v = 1 then
+  -- (an SPI that is not four octets does not fit the kernel structure: ctypes raises before anything is sent)
+  if c.outSpi.length ≠ 4 ∨ c.inSpi.length ≠ 4 then (.error excPython, s)
+  else if s.sad.contains ok ∨ v = 1 then
     (.error .netlink, { s with tape := { tape with bad := tape.bad || (v = 0) || (v ≥ 2) }, nl := s.nl ++ [.refusedNewSa ok.1 ok.2.1 ok.2.2] })
   else if s.sad.contains ik ∨ ik = ok ∨ v ≥ 2 then
     (.error .netlink, { s with tape := { tape with bad := tape.bad || (v = 0) },
